@@ -211,6 +211,10 @@ func (m *promptManager) handleGetPrompt(ctx context.Context, req *JSONRPCRequest
 		if err != nil {
 			return newJSONRPCErrorResponse(req.ID, ErrCodeInternal, err.Error(), nil), nil
 		}
+		if result == nil {
+			return newJSONRPCErrorResponse(req.ID, ErrCodeInternal,
+				fmt.Sprintf("prompt %s: handler returned no result", name), nil), nil
+		}
 		return result, nil
 	}
 
